@@ -53,7 +53,7 @@ fn check_mid(s: &[u8]) -> (usize, Option<usize>, usize) {
     (start, opt_len, n)
 }
 
-//# harness mid_len0 tier=quick label=bounded(|s|=0) props=C17 fn=rusty_basic/src/interpreter/built_ins/mid_fn.rs::do_mid
+//# harness mid_len0 tier=thorough label=bounded(|s|=0) props=C17 fn=rusty_basic/src/interpreter/built_ins/mid_fn.rs::do_mid timeout=1800 attempt=1
 harness!(mid_len0, 6, {
     let s: [u8; 0] = [];
     let (start, len, n) = check_mid(&s);
@@ -61,7 +61,7 @@ harness!(mid_len0, 6, {
     reach!(start == 2 && len == Some(1));
 });
 
-//# harness mid_len1 tier=quick label=bounded(|s|=1,ascii) props=C17 fn=rusty_basic/src/interpreter/built_ins/mid_fn.rs::do_mid
+//# harness mid_len1 tier=thorough label=bounded(|s|=1,ascii) props=C17 fn=rusty_basic/src/interpreter/built_ins/mid_fn.rs::do_mid timeout=1800 attempt=1
 harness!(mid_len1, 6, {
     let s = [vs::ascii() as u8];
     let (start, len, n) = check_mid(&s);
